@@ -72,6 +72,18 @@ def cases(tier, seed, facet):
             d["nfail"] = rng.randint(1, 3)
             d["rerun"] = rng.random() < 0.2
         yield d
+    # ---- B': wide 'pairs' graphs with >=3 workers and batches of 2-3: completion orders that leave
+    #          half-empty batches in flight (more outstanding batches than workers)
+    k = 70 if tier == "quick" else 1500
+    for _ in range(k):
+        d = {"k": "random", "family": "pairs", "plain": True, "n": rng.randint(11, 26), "pseed": rng.randrange(2 ** 31),
+             "form": rng.choice(("legacy", "spec")), "style": "str",
+             "nw": rng.choice((3, 3, 4, 5)), "cs": rng.choice((2, 2, 3)),
+             "nsched": 60 if tier == "quick" else 150, "fullreq": True}
+        if facet == "C04":
+            d["nfail"] = 1
+            d["rerun"] = False
+        yield d
     # ---- C: real pools -------------------------------------------------------------------------
     k = 170 if tier == "quick" else 3000
     for j in range(k):
@@ -126,7 +138,8 @@ def _program(case):
                                fail=[tuple(x) for x in case.get("fail", [])])
     rng = random.Random(case["pseed"])
     fk = (case["exc"],) if case.get("exc") else FAILS
-    return G.random_program(rng, case["n"], style=case["style"], nfail=case.get("nfail", 0), fail_kinds=fk)
+    return G.random_program(rng, case["n"], style=case["style"], nfail=case.get("nfail", 0), fail_kinds=fk,
+                            family=case.get("family"), rich=not case.get("plain"))
 
 
 def _emit(prog, form, **kw):
@@ -243,11 +256,17 @@ def _run_random(case, ctx, facet, prog, failing, outer):
     nruns = 0
     for s in range(case["nsched"]):
         req = G.random_request(rng, keys)
+        if case.get("fullreq"):
+            dm = prog.dep_map()
+            used = set().union(*dm.values()) if dm else set()
+            req = [n.key for n in prog.nodes if n.idx not in used]      # every sink: the whole graph is needed
         model = S.Model(prog, req)
         if facet == "C04" and not any(prog.nodes[i].fail for i in model.need):
             req = [prog.nodes[next(i for i in range(len(keys)) if prog.nodes[i].fail)].key, keys[-1]]
             model = S.Model(prog, req)
         policy = ("random", "pct", "last", "first")[s % 4] if s > 3 else "random"
+        if case.get("family") == "pairs":
+            policy = "random" if s % 3 else "last"
         pts = [rng.randrange(0, 2 * len(keys)) for _ in range(3)] if policy == "pct" else ()
         extra = {"rerun_exceptions_locally": True} if case.get("rerun") and s % 2 else None
         obs = S.run_controlled(dsk, req, num_workers=cfg[0], chunksize=cfg[1], policy=policy,
